@@ -421,7 +421,7 @@ func (o *reflectedObject) Equals(other interface{}, g px.Guard) bool {
 	if o == other {
 		return true
 	}
-	if ov, ok := other.(*reflectedObject); ok {
+	if ov, ok := other.(*reflectedObject); ok && o.typ.Equals(ov.typ, g) {
 		for _, a := range o.typ.AttributesInfo().Attributes() {
 			if !a.Get(o).Equals(a.Get(ov), g) {
 				return false
